@@ -226,8 +226,12 @@ class Sched:
             self.boot_interrupt = None
             self.log("interrupt", "boot:" + pending.obj)
             raise KeyboardInterrupt()
-        if th.name == "control" and any(t.name == "training" for t in self.threads):
-            # interrupts are delivered once both background threads have been started
+        if th.name == "control" and any(t.name == "training" for t in self.threads) and \
+                pending.obj != "collector_lock" and pending.kind != "collect_ts":
+            # interrupts are delivered once both background threads have been started, at the control
+            # thread's protocol-level yield points - not inside the collector hand-over (an asynchronous
+            # exception between taking the samples out of the collector and adding them to the buffer
+            # loses them; no property speaks about that, DESIGN "false alarms")
             self._ctl_yields += 1
             if self.interrupt_at is not None and self._ctl_yields == self.interrupt_at:
                 self.interrupt_at = None
